@@ -194,10 +194,17 @@ def check(fb, ctx):
     inner = [l for l in fors if mcalls(l, r"World::query_match(_all)?$") and not any(mcalls(l2, r"World::query_match(_all)?$") for l2 in find_all(l["body"], lambda n: n.get("k") == "loop" and n.get("src") == "ForLoop"))]
     ctx.floor("query loops in authorize_inner", len(inner), 4)
     a_start = hirq.let_ids(ah["body"], now_call)
-    a_deadline = hirq.let_ids(ah["body"], lambda z: strip(z).get("k") == "binary" and strip(z)["op"] == "Add" and hirq.is_lid(strip(strip(z)["a"]), a_start) and field_of(strip(z)["b"], "limits", "max_time"))
+    is_deadline = lambda z: isinstance(strip(z), dict) and strip(z).get("k") == "binary" and strip(z)["op"] == "Add" and hirq.is_lid(strip(strip(z)["a"]), a_start) and field_of(strip(z)["b"], "limits", "max_time")
+    # the deadline itself, or a private newtype / struct wrapped around it (`Deadline(start + limits.max_time)`)
+    a_deadline = hirq.let_ids(ah["body"], lambda z: is_deadline(z) or (isinstance(strip(z), dict) and strip(z).get("k") in ("call", "struct") and len(find_all(z, is_deadline)) >= 1 and hirq.ctor_name(strip(z)) is not None))
     a_now = a_start
     for n, l in enumerate(inner):
-        t = [x for x in find_all(l, lambda z: z.get("k") == "if") if (lambda c: c.get("k") == "binary" and c.get("op") in ("Ge", "Gt") and hirq.is_lid(strip(c["b"]), a_deadline) and (hirq.is_lid(strip(c["a"]), a_now) or now_call(c["a"])))(strip(x["cond"])) and runlimit_kind(x["then"]) == "Timeout" and find_all(x["then"], lambda z: z.get("k") == "ret")]
+        def base_local(e):
+            e = strip(e)
+            while isinstance(e, dict) and e.get("k") == "field":
+                e = strip(e["e"])
+            return e
+        t = [x for x in find_all(l, lambda z: z.get("k") == "if") if (lambda c: c.get("k") == "binary" and c.get("op") in ("Ge", "Gt") and hirq.is_lid(base_local(c["b"]), a_deadline) and (hirq.is_lid(strip(c["a"]), a_now) or now_call(c["a"])))(strip(x["cond"])) and runlimit_kind(x["then"]) == "Timeout" and find_all(x["then"], lambda z: z.get("k") == "ret")]
         qs = mcalls(l, r"World::query_match(_all)?$")
         after_q = bool(t) and t[0]["ln"] > max(q["ln"] for q in qs)
         ctx.check(after_q, "TIMECHECK", f"authorize_inner query loop #{n}", f"TIMECHECK|loop{n}", "no `if now >= time_limit { return Err(Timeout) }` after the query in this loop", f"{ab['file']}:{l['ln']}")
